@@ -488,8 +488,44 @@ func commaOkSites(p *Prog, fi *FuncInfo) map[string]string {
 			}
 			// the loop may re-execute the definition: that is a new value
 			redef2 := func(q Pt) bool { return q == pt || redef(q) }
+			// named booleans that imply ok (`expired := ok && …`): false wherever ok is false
+			implied := map[types.Object]bool{}
+			ast.Inspect(body, func(x ast.Node) bool {
+				as2, isAs := x.(*ast.AssignStmt)
+				if !isAs || len(as2.Lhs) != 1 || len(as2.Rhs) != 1 {
+					return true
+				}
+				b, isVar := objOf(info, as2.Lhs[0]).(*types.Var)
+				if !isVar || b.IsField() || !isBoolType(b.Type()) {
+					return true
+				}
+				if _, n := localDef(info, body, b); n != 1 {
+					return true
+				}
+				for _, af := range atomsOnEdge(as2.Rhs[0], 0) {
+					if objOf(info, af.E) == okv && af.T {
+						implied[b] = true
+					}
+				}
+				return true
+			})
+			var impliedFalse func(b *cfgBlock, i int) bool
+			if len(implied) > 0 {
+				impliedFalse = func(b *cfgBlock, i int) bool {
+					raw := f.condRaw(b)
+					if raw == nil {
+						return false
+					}
+					for _, af := range atomsOnEdge(raw, i) {
+						if o := objOf(info, af.E); o != nil && implied[o] && af.T {
+							return true
+						}
+					}
+					return false
+				}
+			}
 			msg := ""
-			if path, found := f.ReachRefined2(pt, okv, true, true, reads, redef2, nil); found {
+			if path, found := f.ReachRefined2(pt, okv, true, true, reads, redef2, impliedFalse); found {
 				msg = "the value of a failed " + map[string]string{"assert": "type assertion", "map": "map lookup", "recv": "receive from a closed channel"}[kind] + " (" + v.Name() + ", the zero value) is used: " + f.Describe(path)
 			}
 			out[key] = msg
